@@ -187,32 +187,15 @@ impl<'a, T> std::ops::Deref for MutexGuard<'a, T> { type Target = T; fn deref(&s
 impl<'a, T> std::ops::DerefMut for MutexGuard<'a, T> {
     fn deref_mut(&mut self) -> (r: &mut T) ensures *r == *old(self).w, *final(self).w == *final(r) { self.w }
 }
-pub struct Journal { pub dummy: u8 }
-impl Journal {
-    // std::sync::Mutex::lock; a poisoned mutex is reported as Error::Poisoned by Journal::get_writer
+pub struct PoisonError { pub dummy: u8 }
+pub struct Mutex<T> { pub t: Ghost<int>, pub ph: core::marker::PhantomData<T> }
+impl Mutex<Writer> {
+    // std::sync::Mutex::lock on THE journal mutex (Journal.writer): blocks until free; Err = poisoned by a panic
     #[verifier::external_body]
-    pub fn get_writer(&self, Tracked(w): Tracked<&mut World>) -> (r: Result<MutexGuard<'_, Writer>, Error>)
+    pub fn lock(&self, Tracked(w): Tracked<&mut World>) -> (r: Result<MutexGuard<'_, Writer>, PoisonError>)
         requires !old(w).journal.locked,   // no self-deadlock
         ensures r is Ok ==> *final(w) == (World { journal: JournalG { locked: true, ..old(w).journal }, poison_checked: false, ..*old(w) }),
                 r is Err ==> *final(w) == *old(w),
-    { unimplemented!() }
-}
-impl Journal {
-    // src/journal/mod.rs Journal::persist = { let mut g = self.get_writer()?; g.persist(mode).map_err(Into::into) }
-    // ASSUMED (2 lines, not extracted: the guard is released by an implicit drop, which the extraction cannot see)
-    #[verifier::external_body]
-    pub fn persist(&self, mode: PersistMode, Tracked(w): Tracked<&mut World>) -> (r: Result<(), Error>)
-        requires !old(w).journal.locked,
-        ensures
-            final(w).seqno == old(w).seqno && final(w).visible == old(w).visible && final(w).inflight == old(w).inflight && final(w).poison == old(w).poison
-                && final(w).deleted == old(w).deleted && final(w).trees == old(w).trees && final(w).db_poison == old(w).db_poison && final(w).pending == old(w).pending
-                && final(w).poison_checked == old(w).poison_checked && final(w).db_manual_persist == old(w).db_manual_persist,
-            !final(w).journal.locked, final(w).journal.recs == old(w).journal.recs, final(w).journal.len == old(w).journal.len,
-            final(w).journal.os_len >= old(w).journal.os_len && final(w).journal.os_len <= final(w).journal.len,
-            final(w).journal.synced_len >= old(w).journal.synced_len && final(w).journal.synced_len <= final(w).journal.os_len,
-            r is Ok ==> final(w).journal.os_len == old(w).journal.len && final(w).journal.failed == old(w).journal.failed,
-            r is Ok && mode != PersistMode::Buffer ==> final(w).journal.synced_len == old(w).journal.len,
-            r is Err ==> final(w).journal.failed || *final(w) == *old(w),
     { unimplemented!() }
 }
 pub trait ShimDrop { spec fn is_journal_guard() -> bool; }
@@ -222,7 +205,8 @@ impl<'a> ShimDrop for MutexGuard<'a, Writer> { open spec fn is_journal_guard() -
 pub fn drop<T: ShimDrop>(t: T, Tracked(w): Tracked<&mut World>)
     requires T::is_journal_guard() ==> old(w).journal.locked,
         // P-VIS / P-PUBLISH: the critical section ends only after everything journaled in it was applied and published
-        T::is_journal_guard() ==> old(w).inflight is None && old(w).pending.len() == 0, // [C06:unlock-after-publish] [C02:unlock-after-apply]
+        // (a failed operation may leave with a burned seqno, but then the instance must already be poisoned)
+        T::is_journal_guard() ==> (old(w).inflight is None && old(w).pending.len() == 0) || (old(w).poison.dom().contains(old(w).db_poison) && old(w).poison[old(w).db_poison]), // [C06:unlock-after-publish] [C02:unlock-after-apply] [C13:early-exit-only-when-poisoned]
     ensures T::is_journal_guard() ==> *final(w) == (World { journal: JournalG { locked: false, ..old(w).journal }, ..*old(w) }),
             !T::is_journal_guard() ==> *final(w) == *old(w),
 { unimplemented!() }
